@@ -1571,6 +1571,7 @@ func runC20(r *harness.Run) {
 	r.Extra["transitions_with_judged_outcome"] = judged
 	runPinned(r, "C20")
 	requireHistories(r)
+	c20NumericNames(r)
 }
 
 // ---- replay -----------------------------------------------------------------------------------
